@@ -568,6 +568,11 @@ STD_CONFIGS = [
     # the accounts must be kept exactly as on the default path (seeded change C12-eB: timer re-armed on the file path only)
     dict(name="iter6-callback", checkpoint_on_iteration=True, checkpoint_interval=6, maximum_uninformed=40,
          training_frequency=40, cooldown=20, checkpoint_callback="file"),
+    # the whole run from prior-rejection pools (never switches to the flow): every pool a resumed run draws comes from the
+    # NumPy stream, which must CONTINUE, not restart (seeded change C12-hB re-seeded on resume: the new pool repeated the
+    # initial live points, and the copies of those still alive were accepted a second time)
+    dict(name="iter4-uninformed-only", vectorised=True, checkpoint_on_iteration=True, checkpoint_interval=4,
+         maximum_uninformed=10 ** 9, uninformed_acceptance_threshold=0.0, max_iteration=260),
 ]
 
 
